@@ -20,6 +20,7 @@ Line protocol of the recipe store (C08).  One line = one configuration + one his
     universe = key (`,` key)*                  keys observed after every operation
     history  = `.` | op (`,` op)*              b.K get_bytes | m.K get_metadata | c.K contains | d.K is_dir | k keys |
                                                l.K listdir | r.K remove | x.K.0 / x.K.1 clean_recipes (non-)recursive on directory K
+                                               (result: the removed keys that were not in the `recipe` state before)
   All strings hex (`-` = empty).  Answer: `UNMODELLED` (a definition that does not resolve) or, joined by `;`,
     D<key=query.title.descr.name,…>            the declarations (sorted by key)
     then one state for the initial state and one after every operation:
@@ -111,7 +112,11 @@ def applyS (st : RState σ) : ROp → String × RState σ
   | .keys => (showE keysS (Rcp.keys S cfg st), st)
   | .listdir k => (showE namesS (Rcp.listdir S cfg st k), st)
   | .remove k => (match Rcp.remove S cfg st k with | .ok s => ("ok", s) | .error e => (encErr e, st))
-  | .clean d r => let c := Rcp.clean S cfg st d r; ((match c.2 with | some l => "X" ++ keysS l | none => "XE"), c.1)
+  | .clean d r =>
+    let c := Rcp.clean S cfg st d r
+    -- of the reported keys only those that were not in the `recipe` state before (whether never-made keys are reported is not observed)
+    let was (k : Key) : Bool := match Rcp.getMeta S cfg st k with | .ok o => o.rm.status != .recipe | .error _ => true
+    ((match c.2 with | some l => "X" ++ keysS (l.filter was) | none => "XE"), c.1)
 
 def runS (s0 : σ) (files : List Key) (univ : List Key) (hist : List ROp) : List String :=
   let st0 := Rcp.initState S cfg s0 files
